@@ -192,3 +192,128 @@ def h_serialized_params(data_size: int, k: int, n: int) -> bool:
     if codec.parse_params(sp) != (data_size, k, n):
         return "parse_params(get_serialized_params()) != params"
     return True
+
+
+# ---- the callers' trimming of the decoded (padded) segment, under an ideal erasure code ------------------
+# "any k blocks of a segment decode back to that segment" on tahoe's side of zfec: given that zfec returns the k primary
+# blocks (the padded segment cut into k equal pieces), the immutable and mutable downloaders must hand on exactly the
+# segment's real bytes — all of them, and no padding — for full segments, padded tails, and tails whose padding is longer
+# than one block.
+
+from allmydata.immutable.downloader import node as node_mod
+from allmydata.mutable import retrieve as retrieve_mod
+
+_CLK = [0]
+
+
+def _tick():
+    _CLK[0] += 1
+    return float(_CLK[0])
+
+
+node_mod.now = _tick
+retrieve_mod.time = NS(time=_tick)
+retrieve_mod.defer_to_thread = _sync_defer_to_thread
+NOTES.append("ideal erasure code for the trim obligations: zfec.Decoder.decode returns the k primary blocks (the padded segment cut into k equal pieces, provenance 'seg'); "
+             "time sources in downloader.node / mutable.retrieve replaced by a counter; retrieve.defer_to_thread synchronous")
+_imm_decode = hlib.strip_logs(node_mod.DownloadNode._decode_blocks, consts=hlib.PROV_CONSTS)
+_mut_decode = hlib.strip_logs(retrieve_mod.Retrieve._decode_blocks, consts=hlib.PROV_CONSTS)
+_mut_setup = hlib.strip_logs(retrieve_mod.Retrieve._setup_encoding_parameters)
+hlib.encoded(node_mod.DownloadNode._calculate_sizes)
+
+
+class _IdealDecoder(object):
+    def __init__(self, k, n):
+        self.k, self.n = k, n
+
+    def decode(self, shares, ids):
+        bs = len(shares[0])
+        return [ProvBuf.src("seg", bs, i * bs) for i in range(self.k)]
+
+
+class _IdealZfec(object):
+    Encoder = _FakeZfec.Encoder
+    Decoder = _IdealDecoder
+
+
+class _DSt(object):
+    def add_misc_event(self, *a):
+        pass
+
+    def accumulate_decode_time(self, *a):
+        pass
+
+
+def h_immutable_trim(size: int, segsize: int, segnum: int, p: int) -> bool:
+    """
+    pre: 1 <= size and 1 <= segsize and segsize % B.get("k", 3) == 0 and 0 <= segnum and 0 <= p
+    post: _ == True
+    """
+    k = B.get("k", 3)
+    nd = node_mod.DownloadNode.__new__(node_mod.DownloadNode)
+    nd._verifycap = NS(size=size, needed_shares=k, total_shares=k + 2)
+    r = nd._calculate_sizes(segsize)
+    assume(segnum < r["num_segments"])
+    nd.num_segments = r["num_segments"]
+    nd.segment_size = segsize
+    nd.block_size = r["block_size"]
+    nd.tail_block_size = r["tail_block_size"]
+    nd.tail_segment_size = r["tail_segment_size"]
+    nd.tail_segment_padded = r["tail_segment_padded"]
+    nd._download_status = _DSt()
+    nd._lp = 0
+    tail = segnum == nd.num_segments - 1
+    bs = nd.tail_block_size if tail else nd.block_size
+    saved = codec.zfec
+    codec.zfec = _IdealZfec
+    try:
+        main = codec.CRSDecoder()
+        main.set_params(segsize, k, k + 2)
+        nd._codec = main
+        blocks = dict((i + 1, ProvBuf.src("blk%d" % i, bs, 0)) for i in range(k))
+        out = _collect(_imm_decode(nd, segnum, blocks))
+    finally:
+        codec.zfec = saved
+    if len(out) != 1 or isinstance(out[0], Failure):
+        return "decoding a healthy segment failed: %r" % (out,)
+    segment = out[0][0]
+    want = size - segnum * segsize if tail else segsize
+    if len(segment) != want:
+        return "delivered segment is not exactly the segment's real length (padding kept or data cut)"
+    if p < want and segment.at(p) != ("seg", p):
+        return "delivered byte p is not byte p of the decoded segment"
+    return True
+
+
+def h_mutable_trim(datalength: int, segsize: int, segnum: int, p: int) -> bool:
+    """
+    pre: 1 <= datalength and 1 <= segsize and segsize % B.get("k", 3) == 0 and 0 <= segnum and 0 <= p
+    post: _ == True
+    """
+    k = B.get("k", 3)
+    logs = []
+    me = NS(verinfo=(1, b"root", None, segsize, datalength, k, k + 2, b"prefix", ()), _offset=0, _read_length=datalength,
+            _data_length=datalength, log=lambda *a, **kw: 0, _status=_DSt(), _set_current_status=logs.append)
+    saved = codec.zfec
+    codec.zfec = _IdealZfec
+    try:
+        _mut_setup(me)
+        assume(segnum < me._num_segments)
+        tail = segnum == me._num_segments - 1
+        dec = me._tail_decoder if tail else me._segment_decoder
+        bs = dec.share_size
+        results = [dict((i + 1, (ProvBuf.src("blk%d" % i, bs, 0), b"salt")) for i in range(k))]
+        out = _collect(_mut_decode(me, results, segnum))
+    finally:
+        codec.zfec = saved
+    if len(out) != 1 or isinstance(out[0], Failure):
+        return "decoding a healthy segment failed: %r" % (out,)
+    (segment, salt) = out[0]
+    want = datalength - segnum * segsize if tail else segsize
+    if len(segment) != want:
+        return "delivered segment is not exactly the segment's real length (padding kept or data cut)"
+    if p < want and segment.at(p) != ("seg", p):
+        return "delivered byte p is not byte p of the decoded segment"
+    if salt != b"salt":
+        return "salt lost"
+    return True
